@@ -99,6 +99,16 @@ def handle (j : Json) : R Json := do
       | .ok t, .ok bs => pure (jOk [("tag", jTag t), ("hex", jHex bs)])
       | .error e, _ => pure (jErr e)
       | _, .error e => pure (jErr e)
+  | "rt" =>      -- encode on the wire, parse, decode with the same class (subclasses inherit the codec)
+      let ty ← tyOfName (← fldStr j "ty")
+      let v ← valOfJson ty (← fld j "v")
+      let m ← modeOf j
+      match wireEncode m v with
+      | .error e => pure (jErr e)
+      | .ok bs =>
+        match wireDecode ty m bs with
+        | .error e => pure (jErr e)
+        | .ok (back, rest) => pure (jOk [("hex", jHex bs), ("back", jVal back), ("rest", jHex rest)])
   | "dec" =>     -- Tag(pdu) [; context check; context_to_app] ; X(tag)
       let ty ← tyOfName (← fldStr j "ty")
       let bs ← fldHex j "hex"
